@@ -33,7 +33,7 @@ def run(tier, seed, replay=None):
     states = trans = 0
 
     # ---- the model: reference theorems + thunder's folding algorithm, exhaustively on a bounded universe
-    shapes = ["31s"] if quick else ["31", "22"]
+    shapes = ["31s"] if quick else ["31", "22s"]     # 3 services x 1 version (full universe), 2 services x 2 versions (small universe)
     for sh in shapes:
         m = vlib.tlc("SchemaMerge_MC", "SchemaMerge_MC_TRUE_%s.cfg" % sh, workers=16, timeout=3000, heap="12g")
         if not m.ok:
